@@ -57,6 +57,21 @@ def hI2P : List String → String → Res
     some (showOpt toString (indexToPath h idx), verdictEq (toString (encPath h (nodeAt h idx.toNat))) impl)
   | _, _ => none
 
+/-- `<op>seq <fixed args> <x1,x2,...>`: the same pure function called on `x1`, `x2`, ... IN THIS ORDER in one process; the
+    code's answers come separated by `;`.  Each call is judged on its own (a pure function's answer cannot depend on
+    the calls made before it), so the model and the specification are those of the single-call handler. -/
+def hSeq (one : List String → String → Res) (args : List String) (impl : String) : Res := do
+  let xs ← args.getLast?
+  let fixed := args.dropLast
+  let items := xs.splitOn ","
+  let outs := impl.splitOn ";"
+  if items.length ≠ outs.length then some ("?", "bad") else
+  let rs ← (items.zip outs).mapM fun (x, o) => one (fixed ++ [x]) o
+  let vs := rs.map (·.2)
+  let v := if vs.contains "bad" then "bad" else if vs.contains "big" then "big"
+           else if vs.all (· == "na") then "na" else "ok"
+  some (String.intercalate ";" (rs.map (·.1)), v)
+
 /-- `tbl idxtopath` (dispatched here because the table belongs to bmtree) -/
 def hTblIdxToPath : List String → String → Res
   | ["idxtopath"], impl =>
